@@ -47,6 +47,15 @@ let flush_forest (units : (n * n * n * pdie list) list) =
         | None -> Printf.sprintf "%d=-" x in
       Printf.printf "FIND %d %s\n" (int_of_n (ForestM.d_off d)) (String.concat " " (List.map one find_names)))
     (ForestM.raw_entries f);
+  (* what the model of the cooked child producer (ChildIter.v) hands out for every stored DIE: child@import.import... *)
+  let nd = List.length (ForestM.raw_entries f) in
+  let cfuel = nat_of_int (1000 + nd * nd) in
+  List.iter (fun d ->
+      let ks = ChildIterM.children cfuel f d in
+      Printf.printf "KIDS %d %s\n" (int_of_n (ForestM.d_off d))
+        (String.concat " " (List.map (fun (k, ch) -> Printf.sprintf "%d@%s" (int_of_n (ForestM.d_off k))
+                                        (String.concat "." (List.map (fun c -> string_of_int (int_of_n c)) ch))) ks)))
+    (ForestM.raw_entries f);
   print_endline "END"
 
 let run () =
